@@ -217,7 +217,8 @@ func gen() string {
 	sb.WriteString("\n].\n")
 	sb.WriteString("Definition param_table : list bmeta := Eval vm_compute in param_table_src.\n")
 	sb.WriteString("Definition known_table : list (bytes * bmeta) := Eval vm_compute in combine param_keys_src param_table_src.\n")
-	sb.WriteString("Definition genv : env := mk_env known_table srcs_desc src_local_tbl.\n")
+	fmt.Fprintf(&sb, "(* uint8(config.InternalOverride) *)\nDefinition override_src : N := %d.\n", uint8(config.InternalOverride))
+	sb.WriteString("Definition genv : env := mk_env known_table srcs_desc src_local_tbl override_src.\n")
 	return sb.String()
 }
 
@@ -234,6 +235,10 @@ type update struct {
 	// UpdateFromConfigUpdate: the whole per-source raw config of the message (isAll)
 	isAll bool
 	all   []srcKvs
+	// OverrideParam(ovName, ovVal); src/kvs then hold InternalOverride and the internalOverrides map after the call
+	// (tracked by the generator) so that the bookkeeping can treat it like the UpdateFrom it performs
+	isOver       bool
+	ovName, ovVal string
 }
 
 type observation struct {
@@ -242,6 +247,7 @@ type observation struct {
 	changed []*[]string // nil = not observed (this call or the previous one failed)
 	vals    []string
 	raws    [][2]string
+	fresh   bool // a fresh Config fed this Config's current sources agrees on the watched fields and RawValues
 }
 
 func (o observation) key() string {
@@ -253,7 +259,7 @@ func (o observation) key() string {
 			ch = append(ch, strings.Join(*c, ","))
 		}
 	}
-	return fmt.Sprint(o.errs, "|", o.cerrs, "|", ch, "|", o.vals, "|", o.raws)
+	return fmt.Sprint(o.errs, "|", o.cerrs, "|", ch, "|", o.vals, "|", o.raws, "|", o.fresh)
 }
 
 func kvs0(u update) []string {
@@ -300,6 +306,13 @@ func runOnce(ups []update, watch []string) observation {
 					ch = []string{}
 				}
 			}
+		} else if u.isOver {
+			changed, e := c.OverrideParam(u.ovName, u.ovVal)
+			err = e
+			ch = []string{}
+			if changed {
+				ch = []string{"*"}
+			}
 		} else {
 			m := make(map[string]string, len(u.kvs))
 			for _, kv := range u.kvs {
@@ -336,6 +349,30 @@ func runOnce(ups []update, watch []string) observation {
 		for _, k := range keys {
 			o.raws = append(o.raws, [2]string{k, rv[k]})
 		}
+		// a fresh Config fed exactly the sources this Config holds now (its own ToConfigUpdate message) must agree on
+		// EVERY parameter and on RawValues(): the result is a function of the current sources, not of the history
+		fresh := config.New()
+		_, ferr := fresh.UpdateFromConfigUpdate(c.ToConfigUpdate())
+		o.fresh = ferr == nil
+		if ferr == nil {
+			for _, p := range config.Params() {
+				n := p.GetMetadata().Name
+				if render(fieldOf(c, n)) != render(fieldOf(fresh, n)) {
+					o.fresh = false
+				}
+			}
+			frv := fresh.RawValues()
+			if len(frv) != len(rv) {
+				o.fresh = false
+			}
+			for k, v := range rv {
+				if fv, ok := frv[k]; !ok || fv != v {
+					o.fresh = false
+				}
+			}
+		}
+	} else {
+		o.fresh = true
 	}
 	return o
 }
@@ -702,6 +739,9 @@ func main() {
 			if u.isAll {
 				upsC = append(upsC, fmt.Sprintf("UAll [%s]", strings.Join(parts, "; ")))
 				sample = append(sample, fmt.Sprintf("UpdateFromConfigUpdate(%s)", strings.Join(sparts, " | ")))
+			} else if u.isOver {
+				upsC = append(upsC, fmt.Sprintf("UOver %s %s", bs(u.ovName), bs(u.ovVal)))
+				sample = append(sample, fmt.Sprintf("OverrideParam(%s=%s)", u.ovName, u.ovVal))
 			} else {
 				upsC = append(upsC, fmt.Sprintf("UFrom %d [%s]", uint8(u.src), strings.Join(kvs0(u), "; ")))
 				sample = append(sample, fmt.Sprintf("UpdateFrom(%s)", sparts[0]))
@@ -737,9 +777,10 @@ func main() {
 			for _, kv := range o.raws {
 				raws = append(raws, fmt.Sprintf("(%s, %s)", bs(kv[0]), bs(kv[1])))
 			}
-			obsC = append(obsC, fmt.Sprintf("mk_obs [%s] [%s] [%s] [%s] [%s]", strings.Join(errs, "; "), strings.Join(cerrs, "; "),
-				strings.Join(chs, "; "), strings.Join(vals, "; "), strings.Join(raws, "; ")))
-			obsS = append(obsS, map[string]any{"errs": o.errs, "configErr": o.cerrs, "changed": chS, "values": o.vals, "rawValues": o.raws})
+			obsC = append(obsC, fmt.Sprintf("mk_obs [%s] [%s] [%s] [%s] [%s] %s", strings.Join(errs, "; "), strings.Join(cerrs, "; "),
+				strings.Join(chs, "; "), strings.Join(vals, "; "), strings.Join(raws, "; "), cb(o.fresh)))
+			obsS = append(obsS, map[string]any{"errs": o.errs, "configErr": o.cerrs, "changed": chS, "values": o.vals, "rawValues": o.raws,
+				"freshConfigAgrees": o.fresh})
 		}
 		var watchC []string
 		for _, w := range g.watch {
@@ -766,7 +807,41 @@ func main() {
 		{{config.ConfigFile, [][2]string{{"HealthHost", "1.2.3.4"}, {"healthhost", "!!"}}}},
 		{{config.DatastoreGlobal, [][2]string{{"DatastoreType", "zookeeper"}, {"FelixHostname", "none"}}}, {config.ConfigFile, [][2]string{{"DatastoreType", "kubernetes"}}}},
 	}
+	// histories on one long-lived Config: an update rejected by a fatal value after another parameter was assigned in
+	// the same pass, then the settings are removed (the fields must be back at their defaults)
+	histCorpus := [][]update{
+		{uf(config.DatastorePerHost, [][2]string{{"HealthPort", "1234"}, {"MetadataPort", "99999"}}),
+			uf(config.DatastorePerHost, [][2]string{{"LogSeverityScreen", "Info"}})},
+		{uf(config.EnvironmentVariable, [][2]string{{"healthenabled", "true"}}),
+			uf(config.DatastoreGlobal, [][2]string{{"BPFEnabled", "true"}, {"InterfacePrefix", "none"}}),
+			uf(config.DatastoreGlobal, nil),
+			uf(config.DatastorePerHost, [][2]string{{"HealthPort", "9098"}}),
+			uf(config.DatastorePerHost, nil)},
+		{uf(config.ConfigFile, [][2]string{{"Ipv6Support", "false"}}),
+			{src: config.InternalOverride, kvs: [][2]string{{"ChainInsertMode", "garbage"}}, isOver: true, ovName: "ChainInsertMode", ovVal: "garbage"},
+			uf(config.ConfigFile, nil),
+			{src: config.InternalOverride, kvs: [][2]string{{"ChainInsertMode", "append"}}, isOver: true, ovName: "ChainInsertMode", ovVal: "append"}},
+		{uf(config.DatastoreGlobal, [][2]string{{"BPFLogLevel", "debug"}, {"ChainInsertMode", "none"}}),
+			{isAll: true, all: []srcKvs{{config.DatastoreGlobal, [][2]string{{"ChainInsertMode", "append"}}}}}},
+	}
 	count := 0
+	for _, ups := range histCorpus {
+		if count >= *n {
+			break
+		}
+		g := &caseGen{r: r, tags: map[string]bool{"corpus": true}}
+		for _, u := range ups {
+			for _, sk := range entries(u) {
+				for _, kv := range sk.kvs {
+					if p, ok := ps[strings.ToLower(kv[0])]; ok {
+						g.watchParam(p.GetMetadata().Name)
+					}
+				}
+			}
+		}
+		emit(g, ups, "corpus-history", 2)
+		count++
+	}
 	for _, sks := range corpus {
 		if count >= *n {
 			break
@@ -788,7 +863,147 @@ func main() {
 		g := &caseGen{r: r, content: map[config.Source][][2]string{}, tags: map[string]bool{}, params: lowerNames}
 		stream := "priority"
 		nreps := 2
-		switch k := r.intn(20); {
+		var histUps []update
+		switch k := r.intn(26); {
+		case k >= 20:
+			// history: ONE long-lived Config over 3-9 calls of UpdateFrom / OverrideParam / UpdateFromConfigUpdate, with
+			// updates rejected by a fatal value after other parameters were assigned in the same pass (a higher-priority
+			// source or an earlier name), followed by updates that remove those settings
+			stream = "history"
+			np := 2 + r.intn(3)
+			var hp []pp
+			hp = append(hp, pool[r.intn(25)]) // a flagged parameter (die-on-fail / non-zero / local)
+			for len(hp) < np {
+				q := pool[r.intn(len(pool))]
+				dup := false
+				for _, x := range hp {
+					dup = dup || x.name == q.name
+				}
+				if !dup {
+					hp = append(hp, q)
+				}
+			}
+			for _, q := range hp {
+				g.watchParam(q.name)
+			}
+			cur := map[config.Source][][2]string{}
+			var ov [][2]string
+			setOv := func(k, v string) {
+				for i := range ov {
+					if ov[i][0] == k {
+						ov[i][1] = v
+						return
+					}
+				}
+				ov = append(ov, [2]string{k, v})
+			}
+			nonEmpty := func(kvs [][2]string) [][2]string {
+				var out [][2]string
+				for _, kv := range kvs {
+					if kv[1] != "" {
+						out = append(out, kv)
+					}
+				}
+				return out
+			}
+			hkind := func() int {
+				switch x := r.intn(20); {
+				case x < 10:
+					return 0
+				case x < 15:
+					return 1
+				case x < 19:
+					return 2
+				default:
+					return 3
+				}
+			}
+			mkFrom := func(s config.Source) update {
+				var kvs [][2]string
+				seen := map[string]bool{}
+				cnt := 1 + r.intn(np)
+				for j := 0; j < cnt; j++ {
+					q := hp[r.intn(len(hp))]
+					if seen[q.name] {
+						continue
+					}
+					seen[q.name] = true
+					kvs = append(kvs, [2]string{spell(r, q.name), g.value(q, hkind())})
+				}
+				cur[s] = nonEmpty(kvs)
+				return uf(s, kvs)
+			}
+			nsteps := 3 + r.intn(5)
+			for i := 0; i < nsteps; i++ {
+				switch x := r.intn(10); {
+				case x < 4:
+					histUps = append(histUps, mkFrom(allSources[r.intn(len(allSources))]))
+				case x < 5:
+					s := allSources[r.intn(len(allSources))]
+					cur[s] = nil
+					histUps = append(histUps, uf(s, nil))
+				case x < 7:
+					// poisoned update: a good value for one parameter and a fatal one for the flagged parameter in the
+					// same source; the source is emptied later
+					s := allSources[r.intn(len(allSources))]
+					a, bad := hp[1+r.intn(len(hp)-1)], hp[0]
+					kvs := [][2]string{{spell(r, a.name), g.value(a, 0)}, {spell(r, bad.name), g.value(bad, 1+r.intn(2))}}
+					cur[s] = nonEmpty(kvs)
+					histUps = append(histUps, uf(s, kvs))
+					g.tags["poisoned-update"] = true
+				case x < 9:
+					q := hp[r.intn(len(hp))]
+					name, val := spell(r, q.name), g.value(q, hkind())
+					setOv(name, val)
+					cur[config.InternalOverride] = nonEmpty(ov)
+					histUps = append(histUps, update{src: config.InternalOverride, kvs: append([][2]string{}, ov...), isOver: true, ovName: name, ovVal: val})
+					g.tags["override-param"] = true
+				default:
+					var all []srcKvs
+					for _, s := range allSources {
+						kvs, ok := cur[s]
+						if !ok || r.intn(4) == 0 {
+							continue
+						}
+						kvs = append([][2]string{}, kvs...)
+						if len(kvs) > 0 && r.intn(3) == 0 {
+							j := r.intn(len(kvs))
+							kvs[j][1] = g.value(hp[r.intn(len(hp))], hkind())
+						}
+						all = append(all, srcKvs{s, kvs})
+					}
+					cur = map[config.Source][][2]string{}
+					for _, sk := range all {
+						cur[sk.src] = sk.kvs
+					}
+					histUps = append(histUps, update{isAll: true, all: all})
+					g.tags["config-update-message:history"] = true
+				}
+			}
+			// the operator repairs things: most sources are emptied or given one good value, bad overrides are replaced
+			for _, s := range allSources {
+				if _, ok := cur[s]; !ok || r.intn(4) == 0 {
+					continue
+				}
+				if s == config.InternalOverride && len(ov) > 0 {
+					for _, kv := range append([][2]string{}, ov...) {
+						for _, q := range hp {
+							if strings.EqualFold(q.name, kv[0]) {
+								val := g.value(q, 0)
+								setOv(kv[0], val)
+								histUps = append(histUps, update{src: config.InternalOverride, kvs: append([][2]string{}, ov...), isOver: true, ovName: kv[0], ovVal: val})
+							}
+						}
+					}
+					continue
+				}
+				if r.intn(2) == 0 {
+					histUps = append(histUps, uf(s, nil))
+				} else {
+					q := hp[r.intn(len(hp))]
+					histUps = append(histUps, uf(s, [][2]string{{spell(r, q.name), g.value(q, 0)}}))
+				}
+			}
 		case k < 10:
 			// priority: 1-4 pool parameters, each set in 1-4 sources, one spelling per source
 			np := 1 + r.intn(4)
@@ -865,6 +1080,10 @@ func main() {
 					g.add(allSources[r.intn(len(allSources))], spell(r, q.name), g.value(q, g.kind()))
 				}
 			}
+		}
+		if histUps != nil {
+			emit(g, histUps, stream, nreps)
+			continue
 		}
 		// unknown names (raw values for plugins), sometimes in several sources / spellings
 		if r.intn(4) == 0 {
